@@ -302,6 +302,8 @@ func (e *Engine) programChecks(id string) []*Oblig {
 	switch id {
 	case "C17":
 		return e.c17Obligations(id)
+	case "C18":
+		return e.c18Obligations(id)
 	case "C16", "C08":
 		// Only emit/emitError send on a lexer's token channel, only run closes it; hence the ghost
 		// log maintained by their contracts is the complete output of the lexer.
